@@ -407,6 +407,11 @@ def one_case(args):
             if not active and not silent_required:
                 continue
             argv = [path] + obs.MODES[mode] + ["-E", str(N)]
+            if pos == "middle":
+                # configuration dimension: a custom-checks file that states the true RDH version must not switch off any other check
+                tp = os.path.join(wd, "c%d.checks.toml" % case)
+                write_file(tp, "# true value, written by the C02 monitor\nrdh_version = %d\n" % s.version)
+                argv += ["-c", tp]
             r = obs.run(exe, argv, workdir=wd, stats="json", tag="c%d" % case)
             out["runs"] += 1
             what = None
@@ -442,6 +447,8 @@ def one_case(args):
                 break
     finally:
         os.unlink(path)
+        if os.path.exists(os.path.join(wd, "c%d.checks.toml" % case)):
+            os.unlink(os.path.join(wd, "c%d.checks.toml" % case))
     return out
 
 
